@@ -32,8 +32,7 @@ relies on:
 
 The output depends on the abstract syntax only: comments, docstrings, layout
 and the names of parameters and locals do not change it; `filter(lambda x: c,
-l)`, `(x for x in l if c)` and `[x for x in l if c]` differ only in the
-laziness flag.
+l)`, `(x for x in l if c)` and `[x for x in l if c]` are the same term.
 
 Usage: gen_views.py <out.v>       exit 0 = written (only if content changed)
                                   exit 2 = translation failed (message on stderr)
@@ -538,7 +537,6 @@ class Scope(object):
         need(not g.is_async and isinstance(g.target, ast.Name), '%s: comprehension target' % self.owner)
         it = self.ex(g.iter)          # evaluated in the enclosing scope
         var = g.target.id
-        lz = 'true' if lazy else 'false'
         trivial = is_name(n.elt, var)
         if g.ifs:
             need(trivial, '%s: comprehension with both a condition and a computed element at %s'
@@ -551,9 +549,9 @@ class Scope(object):
                     out = 'TAnd (%s) (%s)' % (p, out)
                 return out
             slot, c = self.binder(var, cond)
-            return 'TFilter %s %d%%nat (%s) (%s)' % (lz, slot, c, it)
+            return 'TFilter %d%%nat (%s) (%s)' % (slot, c, it)
         slot, b = self.binder(var, lambda: self.ex(n.elt))
-        return 'TMap %s %d%%nat (%s) (%s)' % (lz, slot, b, it)
+        return 'TMap %d%%nat (%s) (%s)' % (slot, b, it)
 
     def ex(self, n):
         if isinstance(n, ast.Constant):
@@ -654,7 +652,7 @@ class Scope(object):
                      '%s: lambda parameter list at %s' % (self.owner, where(n)))
                 it = self.ex(a[1])
                 slot, c = self.binder(lam.args[0].arg, lambda: self.ex(a[0].body))
-                return 'TFilter true %d%%nat (%s) (%s)' % (slot, c, it)
+                return 'TFilter %d%%nat (%s) (%s)' % (slot, c, it)
             self.err(n, 'unsupported call')
         if isinstance(f, ast.Attribute):
             if is_name(f.value, 'itertools') and self.free('itertools') and f.attr == 'chain':
